@@ -1,2 +1,159 @@
-(* C17 - placeholder while the models are brought up; theorems follow. *)
-From AV Require Import Lib.Base Client.ClientCodec Client.PlStream Client.Pool Client.Conn.
+(* C17 — the HTTP client delivers a response body completely or with an error, never cut; a
+   connection goes back to the pool only when the response was read to its end; the number of
+   open connections is bounded by the limit.  Only statements here; proofs in Client/*Proofs.v.
+
+   Vocabulary (models in Client/ClientCodec.v, PlStream.v, Pool.v, Conn.v):
+   - [body_result v c buf segs closed]: what `ClientResponse::body()` returns - (Ok body | Err |
+     time-out, fate of the connection) - when the codec state after the head is [c], [buf] was read
+     beyond the head, the socket then delivers the reads [segs] and finally end-of-stream
+     ([closed = true]) or silence.  [v] selects the tree: [v_orig] = before fixes F9/F17,
+     [v_fixed] = with fixes/F9.patch and fixes/F17.patch.
+   - [pbw k s []]: the payload decoder [k] (PayloadDecoder::length(n) | chunked() | eof(), model
+     shared with C01) run over the whole byte string [s]: Ok (_, rest, body, finished).
+   - [fresh k]: [k] is one of the three decoders a response head installs. *)
+From AV Require Import Lib.Base Gen.Consts H1.Chunked H1.PayloadDec H1.Framing
+  Client.ClientCodec Client.PlStream Client.Pool Client.Conn Client.RespHead
+  Client.RespDecProofs Client.BodyProofs Client.ClientProofs Client.PoolProofs.
+
+(* 1. Segmentation independence of the response body: two ways of cutting the same bytes into
+      reads give the same body, the same ending and the same fate of the connection. *)
+Theorem C17_segmentation : forall (v : variant) (c : ccodec) (k : kind) (buf : bytes)
+    (segs1 segs2 : list bytes) (closed : bool),
+  cc_payload c = Some k -> fresh k -> nonempty segs1 -> nonempty segs2 ->
+  concat segs1 = concat segs2 ->
+  body_result v c buf segs1 closed = body_result v c buf segs2 closed.
+Proof. exact segmentation. Qed.
+
+(* 2. Complete or error (repaired code): a Content-Length or chunked body delivered as Ok is the
+      body of a stream on which the decoder reached its end.  In particular a connection that ends
+      (or goes silent) before the framed end gives Err / time-out, never a short success. *)
+Theorem C17_complete_or_error : forall (c : ccodec) (k : kind) (buf : bytes) (segs : list bytes)
+    (closed : bool) (body : bytes) (ft : fate),
+  cc_payload c = Some k -> fresh k -> k <> KEof -> nonempty segs ->
+  body_result v_fixed c buf segs closed = (BOk body, ft) ->
+  exists k' rest, pbw k (buf ++ concat segs) [] = Ok (k', rest, body, true).
+Proof. exact complete_or_error. Qed.
+
+(* ... and for Content-Length "reached its end" means: exactly the first n bytes of the stream *)
+Theorem C17_length_exact : forall (n : N) (s : bytes) k' rest body,
+  pbw (KLength n) s [] = Ok (k', rest, body, true) -> s = body ++ rest /\ lenN body = n.
+Proof. exact length_complete. Qed.
+
+(* 3. Finding F9 on the unrepaired code.  Refutation: a concrete short success ... *)
+Theorem C17_refuted_F9 :
+  exists (c : ccodec) (segs : list bytes),
+    cc_payload c = Some (KLength 10) /\
+    body_result v_orig c [] segs true = (BOk [104;101;108;108;111], FClosed) /\
+    pbw (KLength 10) (concat segs) [] = Ok (KLength 5, [], [104;101;108;108;111], false).
+Proof.
+  exists (mk_ccodec (Some (KLength 10)) CKeepAlive false false), [[104;101;108;108;111]].
+  vm_compute. repeat split.
+Qed.
+
+(* ... in fact EVERY end of stream inside a length-delimited or chunked body is one (the decode
+   buffer is always empty when the payload decoder asks for more) ... *)
+Theorem C17_F9_every_cut : forall (c : ccodec) (k : kind) (buf : bytes) (segs : list bytes) k' r body,
+  cc_payload c = Some k -> fresh k -> nonempty segs ->
+  pbw k (buf ++ concat segs) [] = Ok (k', r, body, false) ->
+  body_result v_orig c buf segs true = (BOk body, FClosed).
+Proof. exact f9_every_cut. Qed.
+
+(* ... and outside that class (the connection does not end) the unrepaired code is right too *)
+Theorem C17_holds_outside_known_F9 : forall (c : ccodec) (k : kind) (buf : bytes) (segs : list bytes) body ft,
+  cc_payload c = Some k -> fresh k -> nonempty segs ->
+  body_result v_orig c buf segs false = (BOk body, ft) ->
+  exists k' rest, pbw k (buf ++ concat segs) [] = Ok (k', rest, body, true).
+Proof. exact orig_outside_f9. Qed.
+
+(* 4. Read-to-close bodies (HTTP/1.0 without length, 101) end where the connection ends: every
+      byte is delivered and the connection is not reused. *)
+Theorem C17_read_to_close : forall (v : variant) (c : ccodec) (buf : bytes) (segs : list bytes),
+  cc_payload c = Some KEof -> nonempty segs ->
+  body_result v c buf segs true = (BOk (buf ++ concat segs), FClosed).
+Proof. exact read_to_close. Qed.
+
+(* 5. Release only when done: `on_release(true)` happens only on a keep-alive connection whose
+      body decoder reached its end (PayloadItem::Eof), and the body was then delivered whole. *)
+Theorem C17_release_only_when_done : forall (v : variant) (c : ccodec) (k : kind) (buf : bytes)
+    (segs : list bytes) (closed : bool) (b : bodyres),
+  cc_payload c = Some k -> fresh k -> nonempty segs ->
+  body_result v c buf segs closed = (b, FReleased) ->
+  keep_alive c = true /\
+  exists k' rest body, pbw k (buf ++ concat segs) [] = Ok (k', rest, body, true) /\ b = BOk body.
+Proof. exact release_only_when_done. Qed.
+
+(* ... and a pooled connection is handed out again only if it was idle in the pool, the check
+   found nothing to read on it (Live) and it has not expired *)
+Theorem C17_reuse_sound : forall p k now chk p' a c,
+  acquire k now chk p = (p', EvReused a c) ->
+  exists pc, In pc (avail_get k (p_avail p)) /\ p_conn pc = c /\ chk c = Live /\
+    now - p_used pc <= c_keep_alive (p_cfg p) /\ now - p_created pc <= c_lifetime (p_cfg p).
+Proof. exact reuse_sound. Qed.
+
+(* 6. Requests in flight never exceed the limit, for every history of pool operations
+      (acquire with any check outcomes / release / close / drop / pool drop, any keys). *)
+Theorem C17_inflight_limit : forall (c : cfg) (ops : list pop),
+  let p := run_pool (pool0 c) ops in
+  permits_out p <= c_limit c /\ lenN (held_conns p) <= permits_out p.
+Proof. exact inflight_limit. Qed.
+
+(* 7. One authority: sockets held by the client (in use + idle) never exceed the limit. *)
+Theorem C17_open_limit_single_authority : forall (c : cfg) (k : key) (ops : list pop),
+  single_key k ops ->
+  lenN (open_conns (run_pool (pool0 c) ops)) <= c_limit c.
+Proof. exact open_limit_single_authority. Qed.
+
+(* Finding F11 (known, documented semantics of `limit`): with two authorities the idle connection
+   of the other authority is not counted - limit 1, two sockets. *)
+Theorem C17_refuted_F11 :
+  exists (c : cfg) (ops : list pop),
+    c_limit c = 1 /\ lenN (open_conns (run_pool (pool0 c) ops)) = 2.
+Proof. exists (mk_cfg 1 15000 75000), f11_witness. split; [reflexivity|exact f11_refutes]. Qed.
+
+(* 8. No leftovers.  Finding F17 on the unrepaired code: the peer answers request 1 with `103`
+      and (after a further request arrived) `200 FIRST`; the client returns 103 as the final
+      response of request 1 and FIRST as the response of request 2. *)
+Theorem C17_refuted_F17 :
+  conn_run simple_rhead H1_MAX_BUFFER_SIZE v_orig [(false, true); (false, true)] f17_script =
+  [OResp 103 (Some (BOk [])); OResp 200 (Some (BOk body_first))].
+Proof. exact f17_refutes. Qed.
+
+(* Repaired code: whatever the peer sends and however it is cut, the head `send_request` returns
+   is never an interim (1xx other than 101) response without payload - the client keeps reading
+   until the final response (or fails). *)
+Theorem C17_no_interim_as_final : forall (hp : bytes -> rhead_res) (maxb : N) (fuel : nat)
+    (c : ccodec) (f : framed) (segs : list bytes) (closed : bool) h c' f' segs',
+  read_head hp maxb v_fixed fuel c f segs closed = HHead h c' f' segs' ->
+  is_interim h = true -> message_type c' <> MTNone.
+Proof. intros hp maxb fuel c f segs closed h c' f' segs'. apply no_interim_as_final. reflexivity. Qed.
+
+(* the witness of F17 on the repaired code: request 1 waits for its final response (time-out), the
+   connection is dropped, nothing of exchange 1 reaches request 2; and with interim + final in one
+   segment each request gets its own response *)
+Theorem C17_no_leftovers_partial :
+  conn_run simple_rhead H1_MAX_BUFFER_SIZE v_fixed [(false, true); (false, true)] f17_script = [OSendErr STimeout] /\
+  conn_run simple_rhead H1_MAX_BUFFER_SIZE v_fixed [(false, true); (false, true)]
+    [EW; ED (hex103 ++ resp_first); EW; ED resp_second] =
+  [OResp 200 (Some (BOk body_first)); OResp 200 (Some (BOk body_second))].
+Proof. split; [exact f17_fixed_witness|exact f17_fixed_same_segment]. Qed.
+(* FULL STATEMENT (not proved; kept for the record):
+     forall scripts (well-formed: the bytes of script j are exactly interim heads, one final head and
+     its framed body) and every segmentation / gating of them, the k-th outcome of
+     [conn_run simple_rhead max v_fixed reqs (concat scripts)] is either an error or the
+     (status, body) of script k.
+   Missing: the head-level counterpart of BodyProofs.read_body_run ([read_head] as a function of
+   the concatenated stream, under the prefix-stability laws of the tokenizer), and monotonicity of
+   the whole-stream semantics under extension.  The correspondence check exercises this statement
+   on every generated sequence (oracle: "response k is the server's k-th final response"). *)
+
+(* non-vacuity: a chunked body cut into three reads, keep-alive: delivered whole and released *)
+Example C17_example :
+  let c := mk_ccodec (Some kchunked0) CKeepAlive false false in
+  (* "5\r\nhel" | "lo\r\n0\r" | "\n\r\n" *)
+  body_result v_fixed c [] [[53;13;10;104;101;108]; [108;111;13;10;48;13]; [10;13;10]] false
+    = (BOk [104;101;108;108;111], FReleased)
+  /\ fresh kchunked0 /\ nonempty [[53;13;10;104;101;108]; [108;111;13;10;48;13]; [10;13;10]].
+Proof.
+  split; [vm_compute; reflexivity|]. split; [right; left; reflexivity|].
+  repeat constructor; discriminate.
+Qed.
